@@ -71,7 +71,8 @@ pub fn dynamic_type_tokinizer(tokinizer: &mut Tokinizer) {
                         }
                     }
 
-                    if total_rule_token == rule_token_index {                            
+                    /* A pattern that does not bind a number to 'value' can not build a quantity */
+                    if total_rule_token == rule_token_index && get_number("value", &fields).is_some() {                            
                         if cfg!(feature="debug-rules") {
                             log::debug!(" --------- {} found", type_name);
                         }
